@@ -12,7 +12,12 @@ PROP = dict(
                  parts=["tok-mutate", "tok-bitpairs"]),
             dict(name="srv", pkg=".", test="TestVerifC14Srv", files=["mc/c14/srv/*.go"],
                  parts=["srv-initial"]),
+            # whole-connection part (E2): router byte counters on real endpoints in virtual time
+            dict(name="e2", pkg=".", test="TestVerifC14E2", files=["mc/c14/e2/*.go"],
+                 parts=["e2-clients", "e2-scripted-client"], libs=["explore", "canon", "sim"],
+                 shards="ncpu", gomaxprocs=1, env={"GODEBUG": "randseednop=0,asyncpreemptoff=1"}),
         ],
+        crash_is_violation=True,
         level_text="E1 (sequential) parts of C14, all executed on the real code. (a) Explicit-state BFS over the real server-perspective sentPacketHandler driven exactly like connection.go's run/send loop (ReceivedBytes before processing, DropPackets(Initial)+ReceivedPacket on the first Handshake packet, OnLossDetectionTimeout at the alarm, SendMode consulted before every datagram and obeyed: none / any / ack-only / PTO probe after QueueProbePacket) against a byte ledger: on every prefix, until a Handshake packet is processed, SendMode is none whenever sent >= 3 x received, so sent <= 3 x received + the one datagram begun below the limit. (b) Bounded-exhaustive input enumeration on the real TokenGenerator/tokenProtector and on the real baseServer.handleInitialImpl (decode -> validateToken -> Retry / INVALID_TOKEN / new connection, connection constructor replaced by a recorder): every single-bit flip, every pair of bit flips, every truncation, every one-byte extension, deletions/insertions/substitutions, re-sealing under other keys, splices of valid tokens, 14 addresses x 14 addresses, ages {0, lifetime-1s, lifetime, lifetime+1s} on a synctest virtual clock. Right level because both halves are finite quantifications (op sequences over a small alphabet around the 3x boundary; an explicit mutation list) over sequential code with no concurrency; the whole-connection wire-level part (E2) is a separate check.",
         level_note="Trusted: the ledger / address-relation reference models in mc/c14, the reflective canonicaliser (connStats write-only counters, logger and qlogger are left out of the state key; times are keyed relative to the harness clock), the depth bounds, testing/synctest's virtual clock. The handler-level ledger counts what ReceivedBytes is told: whether connection.go reports every wire byte exactly once is the E2 part's business (read-only lead: queued undecryptable packets pass through handleOnePacket, hence ReceivedBytes, twice). Token nonces come from crypto/rand; no verdict depends on them (AEAD forgery by a listed mutation has probability 2^-128).",
         technique="explicit-state BFS over the real implementation with a ledger oracle; bounded-exhaustive input enumeration (token mutations x addresses x ages) with a reference relation",
